@@ -7,6 +7,7 @@ package restful
 // -overlay` runs it natively for replay.
 
 import (
+	"errors"
 	"net/http"
 	"net/url"
 	"regexp"
@@ -223,7 +224,10 @@ type vRec struct {
 	status  int
 	nStatus int
 	chunks  [][]byte
+	broken  bool // every Write fails (client gone)
 }
+
+var vErrBroken = errors.New("verif: broken pipe")
 
 func vNewRec() *vRec { return &vRec{hdr: http.Header{}} }
 
@@ -237,6 +241,9 @@ func (r *vRec) WriteHeader(s int) {
 func (r *vRec) Write(b []byte) (int, error) {
 	if r.status == 0 {
 		r.status = 200
+	}
+	if r.broken {
+		return 0, vErrBroken
 	}
 	r.chunks = append(r.chunks, b)
 	return len(b), nil
